@@ -11,8 +11,7 @@ import (
 	"context"
 	"errors"
 	"net"
-	"strings"
-	"time"
+		"time"
 
 	"go.sia.tech/core/gateway"
 	"go.sia.tech/core/types"
@@ -31,6 +30,8 @@ type c18World struct {
 	started   int
 	finished  int
 	release   chan struct{}
+	hosts     int
+	subnetOf  map[*Peer]string
 	holdPeers bool // peers stay connected (acceptRPC blocks) until released or stopped
 	refused   int
 }
@@ -70,21 +71,18 @@ func stubStreamClose(s *gateway.Stream) error {
 	if c18 != nil {
 		c18.closed[s] = true
 	}
+	if rpcW != nil {
+		rpcW.closed = true
+	}
 	return nil
 }
 
 //verif:replace (*go.sia.tech/core/gateway.Stream).SetDeadline
-func stubStreamSetDeadline(s *gateway.Stream, t time.Time) error { return nil }
-
-//verif:replace (*go.sia.tech/coreutils/syncer.Syncer).subnetKey
-func stubSubnetKey(s *Syncer, connAddr string) string {
-	if c18 == nil {
-		return s.subnetKey(connAddr)
+func stubStreamSetDeadline(s *gateway.Stream, t time.Time) error {
+	if rpcW != nil {
+		rpcW.deadline, rpcW.deadlineSet = t, true
 	}
-	if k := strings.IndexByte(connAddr, '/'); k >= 0 {
-		return connAddr[:k]
-	}
-	return ""
+	return nil
 }
 
 //verif:replace (*go.sia.tech/coreutils/syncer.Syncer).handleRPC
@@ -93,7 +91,7 @@ func stubHandleRPC(s *Syncer, id types.Specifier, stream *gateway.Stream, origin
 		return s.handleRPC(id, stream, origin)
 	}
 	w := c18
-	sub := s.subnetKey(origin.ConnAddr)
+	sub := w.subnetOf[origin] // the harness's own notion of the peer's /24, not the code's
 	w.active[origin]++
 	w.subActive[sub]++
 	w.started++
@@ -119,14 +117,22 @@ func newC18(perPeer, perSubnet int) *c18World {
 	s.peerRemoved.L = &s.mu
 	s.config.MaxInflightRPCs = perPeer
 	s.config.MaxInflightRPCsPerSubnet = perSubnet
+	s.config.InflightIPv4PrefixBits = 24
+	s.config.InflightIPv6PrefixBits = 64
 	s.config.RPCTimeout = time.Second
 	c18 = &c18World{s: s, toSend: map[*Peer]int{}, sent: map[*Peer]int{}, closed: map[*gateway.Stream]bool{}, active: map[*Peer]int{}, subActive: map[string]int{}, release: make(chan struct{})}
 	return c18
 }
 
 func (w *c18World) peer(addr, subnet string, n int) *Peer {
-	p := &Peer{t: &gateway.Transport{Addr: addr}, ConnAddr: subnet + "/" + addr}
+	// subnet is the first three octets; the peer's address completes them
+	w.hosts++
+	p := &Peer{t: &gateway.Transport{Addr: addr}, ConnAddr: subnet + "." + string(rune('0'+w.hosts)) + ":9981"}
 	w.s.peers[addr] = p
+	if w.subnetOf == nil {
+		w.subnetOf = map[*Peer]string{}
+	}
+	w.subnetOf[p] = subnet
 	w.toSend[p] = n
 	return p
 }
